@@ -150,11 +150,19 @@ def run(ctx):
             names.add(x.name)
           if x.kind == 'call' and x.call.is_('re:IndexMut>::index_mut$'):
             names |= {y.name for y in origins(b, x.call.args[0], named_terminal=True) if y.name}
-    src = {o.name for o in origins(b, c.args[1], named_terminal=True)}
+    # what is credited: an element of the consumed unallocated map (`for (id, x) in unallocated`), an element of an allocated map, or something else
+    src = set()
+    for o in deep_origins(b, c.args[1], all_args=True):
+      if o.kind == 'call' and o.call.is_('ord::index::updater::rune_updater::RuneUpdater::unallocated'):
+        src.add('unallocated-element')
+      if o.kind == 'call' and o.call.is_('re:hash_map::Iter as std::iter::Iterator>::next$'):
+        src.add('allocated-element')
+    if not src:
+      src = {o.name for o in origins(b, c.args[1], named_terminal=True)}
     rows.append((c, 'burned' if 'burned' in names else 'allocated' if 'allocated' in names else 'unallocated' if 'unallocated' in names else '?', src, _guards(b, c.bb)))
-  burn_all = [r for r in rows if r[1] == 'burned' and r[2] == {'balance'} and not any(d.startswith('Gt(') for d, p in r[3]) and not any('is_op_return' in d for d, p in r[3])]
-  to_out = [r for r in rows if r[1] == 'allocated' and r[2] == {'balance'}]
-  burn_left = [r for r in rows if r[1] == 'burned' and r[2] == {'balance'} and any(d.startswith('Gt(') and p is True for d, p in r[3])]
+  burn_all = [r for r in rows if r[1] == 'burned' and r[2] == {'unallocated-element'} and not any(d.startswith('Gt(') for d, p in r[3]) and not any('is_op_return' in d for d, p in r[3])]
+  to_out = [r for r in rows if r[1] == 'allocated' and r[2] == {'unallocated-element'}]
+  burn_left = [r for r in rows if r[1] == 'burned' and r[2] == {'unallocated-element'} and any(d.startswith('Gt(') and p is True for d, p in r[3])]
   burn_opret = [r for r in rows if r[1] == 'burned' and any('is_op_return' in d and p is True for d, p in r[3])]
   ctx.ob('R9.5', b.n, 'four leftover credits: cenotaph burn, default output, no-output burn, OP_RETURN burn', len(burn_all) == 1 and len(to_out) == 1 and len(burn_left) == 1 and len(burn_opret) == 1,
          f'{len(burn_all)}/{len(to_out)}/{len(burn_left)}/{len(burn_opret)}', where(b, b.line))
@@ -227,6 +235,8 @@ MUTANTS = [
 
 # behaviour-preserving pack (thorough tier)
 NEUTRAL = [
+  {'name': 'cenotaph burn loop: element renamed', 'file': 'src/index/updater/rune_updater.rs', 'old': '      for (id, balance) in unallocated {\n        *burned.entry(id).or_default() += balance;\n      }\n    } else {', 'new': '      for (id, left) in unallocated {\n        *burned.entry(id).or_default() += left;\n      }\n    } else {'},
+
   {'name': 'min written the other way round', 'file': _RU, 'old': '                  allocate(balance, amount.min(*balance), output);', 'new': '                  allocate(balance, (*balance).min(amount), output);'},
   {'name': 'single: arms swapped', 'file': _RU, 'old': '            let amount = if amount == 0 {\n              *balance\n            } else {\n              amount.min(*balance)\n            };', 'new': '            let amount = if amount != 0 {\n              amount.min(*balance)\n            } else {\n              *balance\n            };'},
 ]
